@@ -382,6 +382,21 @@ def canon_schedules():
         k._act("Freeze", "A")
         k.send("A", "v1" if v1 else "v2", ["ok"])            # send through a frozen client: must fail
         out.append(k.s)
+    # short trusting period: expiry of a live client, and "frozen stays Frozen" after the trusting period has passed
+    for kind in ("UNORDERED", "V2"):
+        k = _Canon("CANON-TP-%s" % kind, kind)
+        k.s["tp"] = SMALL_TP
+        proto = "v1" if kind != "V2" else "v2"
+        p = k.send("A", proto, ["ok"], toT=400)
+        ph = k.sync("B")
+        k._act("Freeze", "B")                              # B's client of A is frozen ...
+        k.s["acts"].append({"a": "Block", "c": "B", "dt": SMALL_TP + 2}); k.h["B"] += 1   # ... and then also expires
+        k.relay("Recv", "B", p, ph)                        # must be rejected (Frozen, not merely Expired)
+        k._act("Update", "B", p=ph)                        # updates through a frozen client fail
+        k.s["acts"].append({"a": "Block", "c": "A", "dt": SMALL_TP + 2}); k.h["A"] += 1   # A's client of B expires
+        k.send("A", proto, ["ok"], toT=600)                # send through an expired client: must fail
+        k._act("Update", "A", p=k.h["B"])                  # an expired client cannot be updated
+        out.append(k.s)
     return out
 
 
